@@ -166,6 +166,7 @@ fn wf<W: Write>(w: &Writer<'_, '_, W>) -> bool {
 }
 
 //@ harness: c15_finish_block_step
+//@   replay: no
 //@   props: C15, C06
 //@   tier: quick
 //@   kind: bounded(open buffer <= 3 bytes; every count < 2^13, every sync marker); write_all_vectored replaced by its contract (C16)
@@ -235,6 +236,7 @@ fn c15_block_header_all_counts() {
 }
 
 //@ harness: c15_serialize_ok_step
+//@   replay: no
 //@   props: C15, C06
 //@   tier: quick
 //@   kind: bounded(open buffer <= 3 bytes before the call; value any i64 in one-byte varint range; every approx_block_size incl. 0); write_all_vectored replaced by its contract (C16)
@@ -288,6 +290,7 @@ fn c15_serialize_ok_step() {
 }
 
 //@ harness: c15_serialize_failing_value_step
+//@   replay: no
 //@   props: C15
 //@   tier: quick
 //@   kind: bounded(open buffer <= 3 bytes; the failing value has written k <= 3 arbitrary bytes when it fails)
@@ -323,6 +326,7 @@ fn c15_serialize_failing_value_step() {
 }
 
 //@ harness: c15_push_serialized_step
+//@   replay: no
 //@   props: C15, C06
 //@   tier: quick
 //@   kind: bounded(open buffer <= 3 bytes, pushed slice <= 2 bytes; n_objects any u64 with n + n_objects <= i64::MAX)
@@ -364,6 +368,7 @@ fn c15_push_serialized_step() {
 }
 
 //@ harness: c15_into_inner_step
+//@   replay: no
 //@   props: C15
 //@   tier: quick
 //@   kind: bounded(open buffer <= 3 bytes); write_all_vectored replaced by its contract (C16)
@@ -392,6 +397,7 @@ fn c15_into_inner_step() {
 }
 
 //@ harness: c15_drop_step
+//@   replay: no
 //@   props: C15
 //@   tier: quick
 //@   kind: bounded(open buffer <= 3 bytes); write_all_vectored replaced by its contract (C16)
